@@ -51,6 +51,7 @@ def correspondence(ctx):
         # need_hash=False: versions whose hash disagrees with == stay in the pool (validate's set() is then wrong:
         # maven, K09)
         bench = B.Bench(name, rng, size=2 * L + 6, need_hash=False, respell=0.6)
+        B.probe_unrankable(ctx, "C07", bench)
         stream = "validate:" + name
         if not bench.ok(2 * L + 2):
             ctx.stream(stream)["skipped"] = "pool too small"
@@ -80,6 +81,7 @@ def correspondence(ctx):
                 elif impl != model:
                     ctx.disagree(stream, line, impl, model, False, B.describe(bench, cons, m), spec=expected)
                     break
+            _through_from_string(ctx, name, bench, cons, objs, expected, line, m)
             if impl == "ok:true" and len(cons) <= 4:
                 # third clause: an accepted list can be tested for membership of any version
                 r = bench.rclass(constraints=objs)
@@ -93,6 +95,44 @@ def correspondence(ctx):
             ctx.sample({"line": lines[50], "model wf": answers[50], "scheme": name})
     _cross_scheme(ctx)
     _duplicate_spellings(ctx)
+
+
+def _through_from_string(ctx, name, bench, cons, objs, expected, line, m):
+    """the same list through the parser: `VersionRange.from_string(text, validate=True)` must accept exactly what
+    `validate` accepts, and with `simplify=True, validate=True` exactly what validation says about the simplified list"""
+    from univers.version_range import VersionRange
+    if S.rclass(name) is None or not cons:
+        return
+    stream = "from_string:" + name
+    try:
+        text = "vers:%s/%s" % (S.rclass(name).scheme, "|".join(str(o) for o in objs))
+        plain = VersionRange.from_string(text)
+        if list(plain.constraints) != sorted(objs):
+            raise ValueError("the text does not say the same constraints")
+    except Exception:  # noqa: BLE001
+        ctx.count(stream, key=line, nontrivial=False, branch="text not usable")
+        return
+    got = B.res_bool(lambda: VersionRange.from_string(text, validate=True) is not None)
+    ctx.count(stream, key=line, nontrivial=len(cons) >= 2, branch=expected)
+    if got != expected and not (name == "maven" and got == "ok:true"):
+        d = B.describe(bench, cons, m, objs=objs)
+        d.update({"text": text, "clause": "from_string(validate=True) %s, validate() on the same list %s" % (got, expected),
+                  "python": "from univers.version_range import VersionRange as R; print(R.from_string(%r, validate=True))" % text})
+        ctx.disagree(stream, line, got, expected, True, d, spec=expected)
+        return
+    try:
+        simp = VersionConstraint.simplify(sorted(objs))
+        exp2 = B.res_bool(lambda: VersionConstraint.validate(list(simp)))
+    except Exception:  # noqa: BLE001
+        return
+    got2 = B.res_bool(lambda: VersionRange.from_string(text, simplify=True, validate=True) is not None)
+    ctx.count(stream + ":simplify+validate", key=line, nontrivial=len(cons) >= 2, branch=exp2)
+    if got2 != exp2:
+        d = B.describe(bench, cons, m, objs=objs)
+        d.update({"text": text, "simplified": [str(c) for c in simp],
+                  "clause": "from_string(simplify=True, validate=True) %s, validate() on the simplified list %s" % (got2, exp2),
+                  "python": "from univers.version_range import VersionRange as R; print(R.from_string(%r, simplify=True, validate=True))" % text})
+        ctx.disagree(stream + ":simplify+validate", line, got2, exp2, True, d, spec=exp2)
 
 
 SHARED_TEXTS = ["1.0.0", "1.0.0-alpha", "1.0", "1.0.0-1", "1.0.0a", "1.0.0.1", "2.0.0", "1.0.0+1", "1.0.0~rc1", "1.0.0_p1",
